@@ -219,10 +219,53 @@ def gen_offset(rng: random.Random) -> Any:
     return rng.choice(ZONES)
 
 
-def mk_task(cron: str, offset: Any) -> ScheduledTask:
+class _CaptureSource:
+    """Minimal schedule source that keeps what the kicker's scheduling helpers hand over."""
+
+    def __init__(self) -> None:
+        self.added: List[ScheduledTask] = []
+
+    async def add_schedule(self, schedule: ScheduledTask) -> None:
+        self.added.append(schedule)
+
+
+_HELPER_BROKER: List[Any] = []
+
+
+def _via_helper(kind: str, value: Any, offset: Any = None) -> ScheduledTask:
+    """Build the ScheduledTask through the public helpers kicker.schedule_by_cron / schedule_by_time
+    (CronSpec.to_cron() included) instead of constructing it directly."""
+    import asyncio
+
+    from taskiq.kicker import AsyncKicker
+    from taskiq.scheduler.scheduled_task import CronSpec
+
+    if not _HELPER_BROKER:
+        from mon.args_labels import PlainBroker
+
+        _HELPER_BROKER.append(PlainBroker())
+    src = _CaptureSource()
+    k = AsyncKicker("t", _HELPER_BROKER[0], {})
+    if kind == "cron":
+        mi, ho, dom, mon, dow = value.split(" ")
+        spec = CronSpec(minutes=mi, hours=ho, days=dom, months=mon, weekdays=dow, offset=offset)
+        coro = k.schedule_by_cron(src, spec)  # type: ignore[arg-type]
+    else:
+        coro = k.schedule_by_time(src, value)  # type: ignore[arg-type]
+    loop = asyncio.new_event_loop()
+    try:
+        loop.run_until_complete(coro)
+    finally:
+        loop.close()
+    return src.added[0]
+
+
+def mk_task(cron: str, offset: Any, helper: bool = False) -> ScheduledTask:
     off = offset
     if isinstance(offset, (int, float)):
         off = timedelta(seconds=offset)
+    if helper:
+        return _via_helper("cron", cron, off)
     return ScheduledTask(task_name="t", labels={}, args=[], kwargs={}, cron=cron, cron_offset=off)
 
 
@@ -309,7 +352,10 @@ class C13(Check):
                     cr.counters["tz_db_mismatch_skipped"] += 1
                     continue
                 e = gen_cron(rng, loc if steer else None)
-                t = mk_task(e, off)
+                via_helper = rng.random() < 0.1
+                t = mk_task(e, off, helper=via_helper)
+                if via_helper:
+                    cr.counters["built_via_schedule_by_cron"] += 1
                 self._one(cr, e, off, t, us, rng, check_seconds=True)
                 if rng.random() < 0.35:
                     # the same expression under other offsets at the same instant (several schedules
@@ -462,7 +508,11 @@ class C14(Check):
                 T = now + rng.randint(-2 * 86400 * 10 ** 6, 2 * 86400 * 10 ** 6)
             tzs = gen_tz(rng)
             tt = mk_time(T, tzs)
-            task = ScheduledTask(task_name="t", labels={}, args=[], kwargs={}, time=tt)
+            if rng.random() < 0.05:
+                task = _via_helper("time", tt)
+                cr.counters["built_via_schedule_by_time"] += 1
+            else:
+                task = ScheduledTask(task_name="t", labels={}, args=[], kwargs={}, time=tt)
             Clock.us = now
             try:
                 got = run_mod.get_task_delay(task)
@@ -471,7 +521,7 @@ class C14(Check):
             cr.events["get_task_delay"] += 1
             T_eff = to_us(task.time)  # what the schedule actually holds (pydantic keeps datetime as is)
             if T_eff != T:
-                cr.violations.append(Violation("harness-time-roundtrip", f"ScheduledTask.time {task.time!r} != intended instant"))
+                cr.violations.append(Violation("schedule-time-altered", f"the schedule holds time {task.time!r}, not the target time that was given"))
                 continue
             if abs(T - (B + 1_000_000)) <= 1_000_000:
                 cr.counters["horizon_edge"] += 1
